@@ -1869,6 +1869,24 @@ theorem c09_loop_end_leaves_no_entry (s : St) (hf : FreshIds s) (c : Conn) (hc :
       simp only [endLoop, hrem]
       exact ⟨fun x => by rw [hmem x]; simp, by simp⟩
 
+/-- **a stalled set-up keeps nobody out**: whatever number of connections sit silent at the listener,
+every peer that goes through the set-up is registered, in order of arrival — the accept loop is the
+filter of the arrivals -/
+theorem c09_stalled_setup_keeps_nobody_out (l : List SetUp) :
+    acceptLoop false l = l.filterMap SetUp.peer? := by
+  induction l with
+  | nil => rfl
+  | cons x rest ih =>
+    cases x with
+    | completes p => simp [acceptLoop, SetUp.peer?, ih]
+    | stalls => simp [acceptLoop, List.filterMap_cons, SetUp.peer?, ih]
+
+/-- the variant that completes the handshake inside the loop: one silent connection and no later
+peer is ever registered -/
+theorem c09_inline_handshake_blocks_the_listener (later : List SetUp) :
+    acceptLoop true (.stalls :: later) = [] := by
+  simp [acceptLoop]
+
 /-- the loop and the table together, on a worked stream: two frames, an undecodable one, a frame,
 then the peer resets — three packets dispatched, both handlers told about peer 1, the entry gone;
 what the peer might have sent afterwards plays no role -/
